@@ -3992,6 +3992,10 @@ fn create_gnu_hash_layout(
     dynamic_symbol_definitions: &mut [DynamicSymbolDefinition<'_, Elf>],
 ) -> Option<GnuHashLayout> {
     if !args.hash_style.includes_gnu() || !output_kind.needs_dynamic() {
+        // Without .gnu.hash nothing requires a particular order, but the definitions arrive in an
+        // order that depends on thread scheduling (they are pushed as export requests are
+        // processed), so sort them anyway to keep the output deterministic.
+        dynamic_symbol_definitions.par_sort_unstable_by_key(|d| (d.name, d.symbol_id));
         return None;
     }
 
@@ -4008,13 +4012,15 @@ fn create_gnu_hash_layout(
     };
 
     // If we're going to emit .gnu.hash, then we need to stort the dynamic symbols by bucket.
-    // Tie-break by name for determinism. We can use an unstable sort because names should be
-    // unique. We use a parallel sort because we're processing symbols from potentially many
-    // input objects, so there can be a lot.
+    // Tie-break by name and then by symbol ID for determinism. Names aren't necessarily unique
+    // (`foo@V1` and `foo@@V2` have the same name here), symbol IDs are, so the key is a total order
+    // and we can use an unstable sort. We use a parallel sort because we're processing symbols from
+    // potentially many input objects, so there can be a lot.
     dynamic_symbol_definitions.par_sort_unstable_by_key(|d| {
         (
             gnu_hash_layout.bucket_for_hash(d.format_specific.hash),
             d.name,
+            d.symbol_id,
         )
     });
 
